@@ -25,6 +25,7 @@ const (
 	kfQuotedCRLF   = "F-C11e" // a quoted string runs across CR LF: the line is not answered, following lines are swallowed
 	kfFirstLineEOF = "F-C11f" // an error on the first token of a connection is taken for the end of the stream: silent close
 	kfLiteralSize  = "F-C11g" // literal size >= 30 MiB (or wrapped negative): non-parser error, silent close
+	kfListUTF8     = "F-C11h" // LIST / LSUB with invalid UTF-8 in reference or pattern: regexp.MustCompile panics (state/match.go)
 )
 
 // ---------------------------------------------------------------------------------------------------------------------
@@ -107,10 +108,16 @@ func (s *stream) bytes() []byte {
 	return b
 }
 
-// accountableLine: one line, CRLF-terminated, no other CR / LF, no '{'.
+// accountableLine: one line, CRLF-terminated, no other CR / LF, no '{'. A line whose first word is "*" is left out:
+// gluon takes "*" for a tag (its atom class does not exclude the list wildcards) and answers "* OK ...", which on the
+// wire cannot be told from an untagged response (an RFC 3501 server would answer "* BAD", just as ambiguous).
 func accountableLine(b []byte) bool {
 	n := len(b)
 	if n < 2 || b[n-2] != '\r' || b[n-1] != '\n' {
+		return false
+	}
+
+	if bytes.HasPrefix(b, []byte("* ")) {
 		return false
 	}
 
@@ -132,6 +139,9 @@ func newGen(t *rapid.T, wire bool) *gen {
 	g.MaxSet = 20
 
 	x := &gen{t: t, g: g, wire: wire, maxNest: ev.Pick(3000, 20000), maxAtom: 5000}
+	if wire {
+		x.maxNest = 2000
+	}
 
 	return x
 }
@@ -775,15 +785,24 @@ func (x *gen) stream(maxUnits int) *stream {
 		s.Units = append(s.Units, x.steer(x.unit(), i == 0))
 	}
 
+	x.finish(s, true)
+
+	return s
+}
+
+// finish applies the steering of the listed findings and (possibly) ends the stream at a drawn point.
+func (x *gen) finish(s *stream, mayCut bool) {
 	x.steerStart(s)
 
-	if x.chance("cut", 1, 3) {
+	if x.wire {
+		sanitizeWire(x, s)
+	}
+
+	if mayCut && x.chance("cut", 1, 3) {
 		x.cut(s)
 	}
 
 	x.steerEnd(s)
-
-	return s
 }
 
 // cut ends the stream at a drawn point: inside a token of a drawn class of a drawn unit (usually the last).
